@@ -393,6 +393,34 @@ Definition host (h : hostop) (v : vm) : hres * vm :=
   | HDisplayFails => (HErr EThrown, v)
   end.
 
+(* ---- class C07b (decidable): an error can be raised between a StringStart / SequenceStart and its finish -----
+   `may_fail_any` over-approximates "can end in an error" (a try block is not assumed to catch: a timeout is not
+   catchable); `builder_safe` is the complement of the class.  On `flat` code they coincide with may_fail / safe of
+   RtProofs. *)
+Fixpoint may_fail_any (c : code) : bool :=
+  match c with
+  | Nop | NDisplay | NCallNative _ | NUnopPlain | NBinopPlain => false
+  | Seq a b | Try a b => may_fail_any a || may_fail_any b
+  | Call _ _ b | Str b | Lst b | Import _ _ b | NRun _ b | NCallKoto _ _ b | NUnopKoto _ b | NBinopKoto _ b => may_fail_any b
+  | ImportMain _ _ b _ m => may_fail_any b || may_fail_any m
+  | _ => true
+  end.
+
+Fixpoint builder_safe (c : code) : bool :=
+  match c with
+  | Seq a b | Try a b => builder_safe a && builder_safe b
+  | Call _ _ b | Import _ _ b | NRun _ b | NCallKoto _ _ b | NUnopKoto _ b | NBinopKoto _ b => builder_safe b
+  | ImportMain _ _ b _ m => builder_safe b && builder_safe m
+  | Str b | Lst b => negb (may_fail_any b) && builder_safe b
+  | _ => true
+  end.
+
+Definition hostop_code (h : hostop) : code :=
+  match h with
+  | HRun _ c | HCallKoto _ _ c | HUnopKoto _ c | HBinopKoto _ c => c
+  | _ => Nop
+  end.
+
 (* a finite history of host operations on one instance: results and the state after each step *)
 Fixpoint history (ops : list hostop) (v : vm) : list (hres * vm) :=
   match ops with
